@@ -396,6 +396,20 @@ AIntLogCondY(i, j, s, via) ==
        /\ Emit(heap, Step("IntLogCondY", [i |-> i, j |-> j, y |-> qY, via |-> via], NoObj, 0, NoObj, 0, NoObj,
                           [ln |-> MkSeq(Rn, LAMBDA k : IntLogCondY(c, 1, p, k, QV(qY[k])))]))
 
+\* The callable form in two steps: f = c.integrate_log_conditional_y(p) now, f(Y) later.  The returned function is a
+\* VALUE: it denotes E_{p}[ln p(y|x)] for the p it was requested for, whatever happens to the object p afterwards
+\* (a result may not alias a mutable operand).  The heap holds a "Closure" record with snapshots of c and p.
+AIntLogCondYDefer(i, j) ==
+    LET c == heap[i] p == heap[j] cl == [cls |-> "Closure", c |-> c, p |-> p] IN
+    /\ IsCond(c) /\ IsPdf(p) /\ NumD(p) = CDx(c) /\ CR(c) = 1
+    /\ Emit(Append(heap, cl), Step("IntLogCondYDefer", [i |-> i, j |-> j], NoObj, NextId, [cls |-> "Closure"], 0, NoObj, NoObj))
+AApplyClosure(k, s) ==
+    LET cl == heap[k] Rn == NumR(cl.p)
+        qY == Pick(PointMenu(CDy(cl.c)), Rn, s)
+    IN /\ cl.cls = "Closure"
+       /\ Emit(heap, Step("ApplyClosure", [i |-> k, y |-> qY], NoObj, 0, NoObj, 0, NoObj,
+                          [ln |-> MkSeq(Rn, LAMBDA r : IntLogCondY(cl.c, 1, cl.p, r, QV(qY[r])))]))
+
 AInfo(kind, i, j) ==
     LET c == heap[i] p == heap[j] Rx == NumR(p) Rn == CR(c) * Rx IN
     /\ IsCond(c) /\ IsPdf(p) /\ CDx(c) = NumD(p) /\ TransformOK(c, p)
